@@ -28,7 +28,9 @@ VALUES = [-1, -2, 0, 0.0, False, 1, True, 1.0, 2, "a", "", "-1", ("t", 1), ("t",
           # one tuple argument vs the same values spread over several arguments (and the empty tuple vs no argument)
           (1, 2), (), (-1, -2), ((1, 2),),
           # a positional STRING that is, character for character, what a serialiser makes of keyword arguments
-          '{"a": 1}', '{"a": 1, "b": 2}', '{}', "a=1", "(1,)", "{'a': 1}"]
+          '{"a": 1}', '{"a": 1, "b": 2}', '{}', "a=1", "(1,)", "{'a': 1}",
+          # different strings that render alike: composed vs decomposed, full-width digit, non-breaking space
+          "Z\u00fcrich", "Zu\u0308rich", "\uff11", "a\u00a0b", "a b"]
 I_J_A1, I_J_A1B2, I_J_EMPTY = 29, 30, 31
 I_ONE, I_TWO, I_T12, I_EMPTY, I_TM, I_TT12 = 5, 8, 25, 26, 27, 28
 KWSETS = [{}, {"a": 1}, {"a": 1, "b": 2}, {"b": 2, "a": 1}, {"a": [1, 2]}, {"a": {"k": 1}}, {"a": -1}, {"a": -2},
@@ -39,7 +41,8 @@ KWSETS = [{}, {"a": 1}, {"a": 1, "b": 2}, {"b": 2, "a": 1}, {"a": [1, 2]}, {"a":
           # keyword names an implementation might use for its own parameters
           # (not "cls" / "obj": those are the documented first parameters of check_/drop_/add_mapping themselves)
           {"key": 1}, {"instances": 2, "hashid": 3}, {"factory": 0, "hashfunc": 1}, {"args": 1, "kwargs": 2}, {"name": "n"},
-          {"self_": 1, "mcls": 2}]
+          {"self_": 1, "mcls": 2},
+          {"a": "Z\u00fcrich"}, {"a": "Zu\u0308rich"}, {"a": "\uff11"}, {"a": "1"}, {"a": "a\u00a0b"}, {"a": "a b"}]
 
 INIT_LOG = []
 
@@ -89,6 +92,17 @@ def make_classes():
     class OrderKey(Base, metaclass=singleton.semi_singleton_metaclass(hashfunc=_call_order)):
         pass
 
+    class Shadowy(Base, metaclass=singleton.semi_singleton_metaclass()):
+        """A class with class-level mappings of its own under names a registry might use."""
+
+        _instances = {}
+        instances = {}
+        _instance_map = {}
+        instance_map = {}
+        _semisingleton_instance_map = {}
+        __semisingleton_instance_map = {}
+        _map = {}
+
     class Factory(Base, metaclass=singleton.semi_singleton_metaclass()):
         """__new__ hands out an instance of an implementation subclass (as pathlib.Path() hands out a PosixPath)."""
 
@@ -131,13 +145,13 @@ def make_classes():
             INIT_LOG.append((type(self).__name__, id(self), args, dict(kwargs)))
             super().__init__()
 
-    classes = {c.__name__: c for c in (Own1, Own2, SharedA, SharedB, Parent, Child, Custom, SVertex, EmptyBag, Normalizer, Picky, OrderKey, Factory)}
+    classes = {c.__name__: c for c in (Own1, Own2, SharedA, SharedB, Parent, Child, Custom, SVertex, EmptyBag, Normalizer, Picky, OrderKey, Factory, Shadowy)}
     return classes
 
 
-CLASS_NAMES = ["Own1", "Own2", "SharedA", "SharedB", "Parent", "Child", "Custom", "SVertex", "EmptyBag", "Normalizer", "Picky", "OrderKey", "Factory"]
+CLASS_NAMES = ["Own1", "Own2", "SharedA", "SharedB", "Parent", "Child", "Custom", "SVertex", "EmptyBag", "Normalizer", "Picky", "OrderKey", "Factory", "Shadowy"]
 ARRANGEMENT = {"Own1": "own", "Own2": "own", "SharedA": "shared_metaclass", "SharedB": "shared_metaclass",
-               "Parent": "subclassing", "Child": "subclassing", "Custom": "custom_hashfunc", "SVertex": "vertex_subclass", "EmptyBag": "falsy_instances", "Normalizer": "init_mutates_arguments", "Picky": "init_may_raise", "OrderKey": "keyword_order_sensitive_hashfunc", "Factory": "new_returns_subclass_instance"}
+               "Parent": "subclassing", "Child": "subclassing", "Custom": "custom_hashfunc", "SVertex": "vertex_subclass", "EmptyBag": "falsy_instances", "Normalizer": "init_mutates_arguments", "Picky": "init_may_raise", "OrderKey": "keyword_order_sensitive_hashfunc", "Factory": "new_returns_subclass_instance", "Shadowy": "class_attributes_named_like_a_registry"}
 
 
 def model_key(cname, args, kwargs):
@@ -361,7 +375,7 @@ def prelude():
     """Seed-independent scripts that make every arrangement x situation appear."""
     out = []
     for a, b in (("Own1", "Own2"), ("SharedA", "SharedB"), ("Parent", "Child"), ("Child", "Parent"), ("Custom", "Own1"),
-                 ("SVertex", "Own1"), ("SharedB", "SharedA"), ("EmptyBag", "Own1"), ("Own2", "EmptyBag"), ("Normalizer", "Own1"), ("Picky", "Own2"), ("OrderKey", "Own1"), ("Own2", "OrderKey"), ("Factory", "Own1"), ("Parent", "Factory")):
+                 ("SVertex", "Own1"), ("SharedB", "SharedA"), ("EmptyBag", "Own1"), ("Own2", "EmptyBag"), ("Normalizer", "Own1"), ("Picky", "Own2"), ("OrderKey", "Own1"), ("Own2", "OrderKey"), ("Factory", "Own1"), ("Parent", "Factory"), ("Shadowy", "Own1"), ("Own2", "Shadowy")):
         for v1, v2 in ((0, 1), (2, 3), (5, 6), (12, 13), (19, 20), (9, 9)):
             out.append([
                 {"op": "new", "c": a, "a": [v1], "k": 0, "i": 0},
@@ -389,6 +403,11 @@ def prelude():
                 {"op": "new", "c": b, "a": [], "k": 17, "i": 0},
                 {"op": "drop", "c": a, "a": [], "k": 13, "i": 0},
             ])
+        # keyword strings that differ only by Unicode normalisation form (or look-alike characters) are different keys
+        out.append([{"op": "new", "c": a, "a": [], "k": kk, "i": 0} for kk in (24, 25, 26, 27, 28, 29, 24, 25)] +
+                   [{"op": "check", "c": a, "a": [], "k": 25, "i": 0}, {"op": "drop", "c": a, "a": [], "k": 24, "i": 0},
+                    {"op": "check", "c": a, "a": [], "k": 25, "i": 0}, {"op": "new", "c": b, "a": [35], "k": 0, "i": 0},
+                    {"op": "new", "c": b, "a": [36], "k": 0, "i": 0}, {"op": "new", "c": b, "a": [35], "k": 0, "i": 0}])
         # C(1, '{"a": 1}') is not C(1, a=1); C('{"a": 1, "b": 2}') is not C(a=1, b=2); C('{}') is not C()
         out.append([
             {"op": "new", "c": a, "a": [I_ONE], "k": 1, "i": 0},
